@@ -1,7 +1,7 @@
 """Interval evaluation of expression trees + facts from dominating guards (E3 discharge classes
 `interval` and `guard`)."""
 import re
-from .expr import Ex, norm, show, alts, walk
+from .expr import Ex, norm, show, alts, walk, canon
 
 INT_RANGES = {}
 for bits in (8, 16, 32, 64, 128):
@@ -48,8 +48,10 @@ class Intervals:
         r = self._range(e, ty, depth)
         # refine with guard facts comparing this very expression with something of known range
         lo, hi = r
+        ce = canon(e)
         for (op, x, y) in self.facts:
-            if x == e:
+            x, y = canon(x), canon(y)
+            if x == ce:
                 ylo, yhi = self._range(y, ty, depth + 1) if depth < 6 else TOP
                 if op == "Lt":
                     hi = min(hi, yhi - 1)
@@ -66,7 +68,7 @@ class Intervals:
                         lo += 1
                     if hi == yhi:
                         hi -= 1
-            elif y == e:
+            elif y == ce:
                 xlo, xhi = self._range(x, ty, depth + 1) if depth < 6 else TOP
                 if op == "Lt":      # x < e
                     lo = max(lo, xlo + 1)
